@@ -172,8 +172,12 @@ static inline XmiSong gen_xmi_song(Rng &r, int song_index, int max_events = 40)
         {
             static const int ccs[] = {1, 7, 10, 11, 64, 91, 93, 74};
             int cc = r.pick(ccs), v = r.range(0, 127);
+            // AIL's own controllers that are not sequence control (channel lock 110, lock protect 111, voice protect 112, timbre protect
+            // 113, patch bank select 114, indirect controller prefix 115, clear beat/bar count 118): plain controllers of the sequence
+            if(r.chance(0.25)) cc = (int)r.pick((const int[]){110, 111, 112, 113, 114, 115, 118});
             b.push_back((uint8_t)(0xB0 | ch)); b.push_back((uint8_t)cc); b.push_back((uint8_t)v);
             x.status = (uint8_t)(0xB0 | ch); x.d0 = (uint8_t)cc; x.d1 = (uint8_t)v;
+            if(cc == 114 && ch != 9) x.d0 = 32;      // AIL patch bank select is what MIDI calls bank select (LSB); percussion channel untouched
         }
         else if(kind < 85)
         {
